@@ -65,10 +65,21 @@ pub fn sig_from_rs(req: &Value) -> Result<Signature, E> {
     Signature::from_compact_bytes(&c).map_err(|e| drv(format!("compact(r,s): {}", e)))
 }
 
+/// message given literally, or as {"len": n} (bytes i -> (i * 31 + 7) & 0xff) to avoid shipping tens of megabytes of hex
+fn msg_of(req: &Value) -> Result<Vec<u8>, E> {
+    match req.get("msg_gen") {
+        Some(g) => {
+            let n = un(g, "len")? as usize;
+            Ok((0..n).map(|i| (i.wrapping_mul(31).wrapping_add(7)) as u8).collect())
+        }
+        None => hx(req, "msg"),
+    }
+}
+
 fn ecdsa_sign(req: &Value) -> R {
     let key = mk_key(req, "key", "compressed")?;
     let mode = st(req, "mode")?;
-    let msg = hx(req, "msg")?;
+    let msg = msg_of(req)?;
     let sig = match mode {
         "det" => ECDSA::sign_with_deterministic_k(&key, &msg, hash_of(req)?, bo(req, "reverse_k")).map_err(lib)?,
         "rand" => ECDSA::sign_with_random_k(&key, &msg, hash_of(req)?, bo(req, "reverse_k")).map_err(lib)?,
@@ -88,7 +99,7 @@ fn ecdsa_sign(req: &Value) -> R {
 fn ecdsa_verify(req: &Value) -> R {
     let pk = PublicKey::from_bytes(&hx(req, "pub")?).map_err(|e| drv(format!("pub: {}", e)))?;
     let sig = sig_from_rs(req)?;
-    let msg = hx(req, "msg")?;
+    let msg = msg_of(req)?;
     let hash = hash_of(req)?;
     let mut o = json!({
         "verify_digest": sub(|| ECDSA::verify_digest(&msg, &pk, &sig, hash), |b| json!(b)),
@@ -188,6 +199,7 @@ fn ecies_enc(req: &Value) -> R {
             o["direct_decrypt_wrong_recipient_via_key"] = sub(|| wk.decrypt_message(&ct, &sender_pub), |b| h(&b));
             let wpub = wk.to_public_key().map_err(lib)?;
             o["direct_decrypt_wrong_sender"] = sub(|| ECIES::decrypt(&ct, &rk, &wpub), |b| h(&b));
+            o["direct_decrypt_wrong_sender_via_key"] = sub(|| rk.decrypt_message(&ct, &wpub), |b| h(&b));
         }
     }
     Ok(o)
